@@ -5,7 +5,11 @@ from typing import Any, Callable
 
 from spec_classes.types import MISSING
 from spec_classes.utils.method_builder import MethodBuilder
-from spec_classes.utils.mutation import mutate_value, unfrozen
+from spec_classes.utils.mutation import (
+    _restore_attrs_on_error,
+    mutate_value,
+    unfrozen,
+)
 from spec_classes.utils.type_checking import type_label
 
 from .base import MethodDescriptor
@@ -166,7 +170,9 @@ class ResetMethod(MethodDescriptor):
         if not _inplace:
             self = copy.deepcopy(self)
 
-        with unfrozen(self, only_if=not _inplace):
+        with _restore_attrs_on_error(self, only_if=_inplace), unfrozen(
+            self, only_if=not _inplace
+        ):
             for attr in self.__spec_class__.attrs:
                 try:
                     delattr(self, attr)
